@@ -67,24 +67,23 @@ fn main() {
     if argv.get(1).map(|s| s.as_str()) == Some("--child") {
         let name = argv.get(2).cloned().unwrap_or_default();
         let rest: Vec<String> = argv[3.min(argv.len())..].to_vec();
-        let code = match name.as_str() {
-            n if n.starts_with("codec") => p_codec::child(n, &rest),
-            _ => {
+        // isolated sub-cases: each module claims the names it knows, None = not mine
+        let code = None
+            .or_else(|| p_codec::child(&name, &rest))
+            .unwrap_or_else(|| {
                 eprintln!("unknown child {}", name);
                 2
-            }
-        };
+            });
         std::process::exit(code);
     }
     let args = parse_args();
     let mut rep = Report::new(&args);
-    match args.prop.as_str() {
-        "C01" => p_codec::c01(&args, &mut rep),
-        "C37" => p_backoff::c37(&args, &mut rep),
-        other => {
-            eprintln!("unknown property {}", other);
-            std::process::exit(2);
-        }
+    // every workload module offers dispatch(prop, args, rep) -> handled?
+    let handled = p_codec::dispatch(&args, &mut rep)
+        || p_backoff::dispatch(&args, &mut rep);
+    if !handled {
+        eprintln!("unknown property {}", args.prop);
+        std::process::exit(2);
     }
     rep.write(&args);
 }
